@@ -391,8 +391,7 @@ Qed.
 
 Lemma wchg_ok w w' u : wchg (tv w u) (tv w' u) -> (wst w u = TOk <-> wst w' u = TOk).
 Proof.
-  unfold tv. intro A. inversion A; subst; try (split; congruence).
-  - rewrite <- H0, <- H3. reflexivity.
+  unfold tv. intro A. inversion A; subst; split; congruence.
 Qed.
 
 Lemma get_ev_set_other sy e e' ev' w' : e <> e' ->
@@ -427,16 +426,17 @@ Proof.
   - destruct (step_wait true (get_ev sy e0) (sw sy) u) as [ev' w'] eqn:E. simpl.
     destruct (Nat.eq_dec e0 e) as [->|Ne]; [|rewrite get_ev_set_other by exact Ne; exact T].
     rewrite get_ev_set_same by exact L. unfold step_wait in E.
-    destruct (eres (get_ev sy e)) eqn:Hr; [inversion E; subst; exact T|].
-    destruct (find_waiter u (ewait (get_ev sy e))); [|inversion E; subst; exact T].
-    destruct (ge_ok _); inversion E; subst; [|exact T].
-    destruct T as [T|[_ T]]; [congruence|]. right. split; [exact Hr | exact T].
+    destruct T as [T|[Hr T]].
+    + rewrite T in E. inversion E; subst. left. exact T.
+    + rewrite Hr in E.
+      destruct (find_waiter u (ewait (get_ev sy e))); [|inversion E; subst; right; split; assumption].
+      destruct (ge_ok _); inversion E; subst; right; (split; [first [assumption | reflexivity] | exact T]).
   - destruct (step_main true false g (get_ev sy e0) (sw sy)) as [[ev' w'] rs] eqn:E. simpl.
     destruct (Nat.eq_dec e0 e) as [->|Ne]; [|rewrite get_ev_set_other by exact Ne; exact T].
     rewrite get_ev_set_same by exact L. unfold step_main in E.
-    destruct (eres (get_ev sy e)) eqn:Hr; [inversion E; subst; exact T|].
-    destruct (edonec (get_ev sy e)) as [|u rest] eqn:Hd; [inversion E; subst; exact T|].
-    destruct T as [T|[_ T]]; [congruence|].
+    destruct T as [T|[Hr T]]; [rewrite T in E; inversion E; subst; left; exact T|].
+    rewrite Hr in E.
+    destruct (edonec (get_ev sy e)) as [|u rest] eqn:Hd; [inversion E; subst; right; split; assumption|].
     apply (main_cont_tracked true false g t _ _ _ _ _ E eq_refl). cbn [est].
     destruct (ret_frame false g (wst (sw sy)) (est (get_ev sy e)) u) as [Fp [Fe Ft]].
     destruct (Hok _ (get_ev_In sy e L)) as [O [Td _]]. specialize (Td Hr).
@@ -444,11 +444,13 @@ Proof.
     + left. apply Fe, T.
     + destruct (Nat.eq_dec u t) as [->|Ne].
       * (* the task itself is returned: what happens depends on where its accounting stands *)
-        pose proof (ph_acct sy n P) as Ac. unfold tv in Ac. inversion Ac; subst.
-        -- right. right. apply (ret_lost_sched false g Hwf); [exact O | exact Td | congruence | apply (ph_deps sy n P)].
-        -- right. right. apply (ret_lost_sched false g Hwf); [exact O | exact Td | congruence | apply (ph_deps sy n P)].
+        pose proof (ph_acct sy n P) as Ac. pose proof (ph_deps sy n P) as Dp. unfold tv in Ac. clear P.
+        remember (wst (sw sy) t, wcl (sw sy) t, wlu (sw sy) t) as v eqn:Ev.
+        destruct Ac as [|Lt|Ge|s0 Hs Lt]; injection Ev as E1 E2 E3.
+        -- right. right. apply (ret_lost_sched false g Hwf); [exact O | exact Td | congruence | exact Dp].
+        -- right. right. apply (ret_lost_sched false g Hwf); [exact O | exact Td | congruence | exact Dp].
         -- left. apply ret_err. congruence.
-        -- right. right. apply ret_handed_sched. congruence.
+        -- right. right. apply ret_handed_sched. rewrite <- E1. exact Hs.
       * right. left. rewrite Fp. apply set_rm_In. split; [exact T | congruence].
     + right. right. apply Ft, T.
 Qed.
@@ -462,8 +464,8 @@ Proof.
   constructor.
   - apply reach_step; [apply (ph_reach sy n P) | apply ev_label_legal, Hl].
   - destruct (ev_step_world g Hwf sy l Hok Hl) as [[rs [Ws E]]|[E Wc]].
-    + rewrite (cnt_mem t _ (sf_nodup _ _ _ _ _ _ _ F)), E. apply acct_wstep; [exact Ws | apply (ph_acct sy n P)].
-    + rewrite E. unfold cnt. simpl. rewrite Nat.add_0_r. apply (acct_wchg _ _ _ (Wc t)), (ph_acct sy n P).
+    + rewrite (cnt_mem t _ (sf_nodup _ _ _ _ _ _ _ F)), E. apply (acct_wstep (sw sy) _ rs n Ws), (ph_acct sy n P).
+    + rewrite E. unfold cnt. simpl. rewrite Nat.add_0_r. apply (acct_wchg (sw sy) _ n (Wc t)), (ph_acct sy n P).
   - intros e He. destruct (ph_B sy n P e He) as [_ [St L]]. split; [apply (tracked_step sy n l e P Hl He)|].
     split; [apply step_started, St | rewrite step_length; exact L].
   - intros d Hd v Hv. apply class_done_false.
@@ -486,3 +488,124 @@ Proof.
 Qed.
 
 End Phase.
+
+(* ------------------------------------------------------------------ the theorems *)
+
+Section Final.
+Variable g : list tnode.
+Hypothesis Hwf : wf g.
+Variable st0 : nat -> tstate.
+Variable rootss : list (list nat).
+
+Local Notation Hver := (fun (_ : true = true) => @eq_refl bool false).
+Local Notation stepv := (step_v true false g).
+Local Notation execv := (exec_v true false g).
+Local Notation reach := (reachable_v true false g (init_sys st0 rootss)).
+
+(* evaluation e has been started, has not returned, and task t is pending in it *)
+Definition awaiting (sy : sys) (t e : nat) : Prop :=
+  e < length (sevs sy) /\ estarted (get_ev sy e) = true /\ eres (get_ev sy e) = None /\
+  In t (spending (est (get_ev sy e))).
+
+Lemma PH_init sy0 t :
+  reach sy0 -> wlu (sw sy0) t = true -> deps_done false g (wst (sw sy0)) t ->
+  PH g st0 rootss t (wcl (sw sy0) t) (awaiting sy0 t) (fst (stepv sy0 (LSet t TLost))) 0.
+Proof.
+  intros R Lu Hd. constructor.
+  - apply reach_step; [exact R | exact I].
+  - simpl. unfold tv. simpl. rewrite upd_same, Lu. apply ac_lost.
+  - intros e [L [St [Hr Hp]]]. simpl. unfold get_ev in *. simpl.
+    split; [right; split; [exact Hr | right; left; exact Hp]|]. split; assumption.
+  - intros d Hdd v Hv. simpl. destruct (Nat.eq_dec v t) as [->|Ne].
+    + exfalso. destruct Hwf as [_ [_ [_ [rk [_ Hrk]]]]]. specialize (Hrk t d t Hdd Hv). lia.
+    + rewrite upd_other by exact Ne. apply (Hd d Hdd v Hv).
+Qed.
+
+Lemma exec_lost_cons sy0 t ls :
+  fst (execv sy0 (LSet t TLost :: ls)) = fst (execv (fst (stepv sy0 (LSet t TLost))) ls) /\
+  runs_of (snd (execv sy0 (LSet t TLost :: ls))) = runs_of (snd (execv (fst (stepv sy0 (LSet t TLost))) ls)).
+Proof.
+  simpl. destruct (execv _ ls) as [sy2 tr]. split; reflexivity.
+Qed.
+
+(* what a live evaluation at a quiescent point cannot be: tracking a task that is not handed out *)
+Lemma tracked_quiescent sy t e :
+  reach sy -> quiescent sy -> e < length (sevs sy) -> estarted (get_ev sy e) = true ->
+  ~ handed (wst (sw sy) t) -> tracked t (get_ev sy e) -> eres (get_ev sy e) = Some true.
+Proof.
+  intros R Q L St Nh [T|[Hr T]]; [exact T|]. exfalso.
+  destruct (progress_v true false Hver g st0 rootss sy Hwf R Q e L St Hr) as [Td [_ [Se Hp]]].
+  destruct T as [T|[T|T]]; [congruence | apply Nh, Hp, T | rewrite Td in T; exact T].
+Qed.
+
+(* The loss that reaches the limit.  Task t is with an executor, handed out by one
+   of the evaluations (lossUncounted), its dependencies are done, it has been lost
+   c times in a row and c + 1 >= max_consecutive_lost.  It is lost once more; the
+   evaluations then take their steps in ANY order until nothing is left to do.
+   Then: every evaluation that was awaiting t has returned an error, t was not handed
+   out again, and t is in ERR with the loss counted once - unless every awaiting
+   evaluation failed (for some other task) before any of them looked at t. *)
+Theorem lost_limit_all_evaluators sy0 t ls :
+  reach sy0 -> handed (wst (sw sy0) t) -> wlu (sw sy0) t = true ->
+  deps_done false g (wst (sw sy0)) t ->
+  (wcl (sw sy0) t + 1 >= max_consecutive_lost)%Z ->
+  Forall ev_label ls ->
+  let r := execv sy0 (LSet t TLost :: ls) in
+  quiescent (fst r) ->
+  (forall e, awaiting sy0 t e -> eres (get_ev (fst r) e) = Some true) /\
+  cnt t (runs_of (snd r)) = 0 /\
+  (tv (sw (fst r)) t = (TErr, (wcl (sw sy0) t + 1)%Z, false) \/
+   tv (sw (fst r)) t = (TLost, wcl (sw sy0) t, true)).
+Proof.
+  intros R Hh Lu Hd Hc Hl r Q. subst r.
+  destruct (exec_lost_cons sy0 t ls) as [E1 E2]. rewrite E1 in *. rewrite E2.
+  pose proof (PH_exec g Hwf st0 rootss t _ _ ls _ 0 (PH_init sy0 t R Lu Hd) Hl) as P.
+  set (sy2 := fst (execv (fst (stepv sy0 (LSet t TLost))) ls)) in *.
+  set (n := cnt t (runs_of (snd (execv (fst (stepv sy0 (LSet t TLost))) ls)))) in *.
+  simpl in P. destruct P as [R2 Ac B _].
+  assert (Nh : ~ handed (wst (sw sy2) t) /\ n = 0 /\
+               (tv (sw sy2) t = (TErr, (wcl (sw sy0) t + 1)%Z, false) \/ tv (sw sy2) t = (TLost, wcl (sw sy0) t, true))).
+  { unfold tv in *. remember (wst (sw sy2) t, wcl (sw sy2) t, wlu (sw sy2) t) as v eqn:Ev.
+    destruct Ac as [|Lt|Ge|s Hs Lt]; try lia; injection Ev as X1 X2 X3; rewrite <- X1.
+    - split; [intros [Z|Z]; discriminate|]. split; [reflexivity | right; reflexivity].
+    - split; [intros [Z|Z]; discriminate|]. split; [reflexivity | left; reflexivity]. }
+  destruct Nh as [Nh [N0 St]]. split; [|split; [exact N0 | exact St]].
+  intros e He. destruct (B e He) as [T [Sd L]].
+  apply (tracked_quiescent sy2 t e R2 Q L Sd Nh T).
+Qed.
+
+(* Fewer losses.  Same situation with c + 1 < max_consecutive_lost: whatever the order
+   of the evaluations' steps, at the next quiescent point the loss has been counted
+   exactly once and the task has been handed to the executor exactly once (by
+   whichever evaluation got there first) - unless every awaiting evaluation failed
+   for some other task first, in which case the task stays LOST and nobody runs it. *)
+Theorem lost_resubmitted_all_evaluators sy0 t ls :
+  reach sy0 -> handed (wst (sw sy0) t) -> wlu (sw sy0) t = true ->
+  deps_done false g (wst (sw sy0)) t ->
+  (wcl (sw sy0) t + 1 < max_consecutive_lost)%Z ->
+  Forall ev_label ls ->
+  let r := execv sy0 (LSet t TLost :: ls) in
+  quiescent (fst r) ->
+  (cnt t (runs_of (snd r)) = 1 /\ handed (wst (sw (fst r)) t) /\
+   wcl (sw (fst r)) t = (wcl (sw sy0) t + 1)%Z /\ wlu (sw (fst r)) t = true) \/
+  (cnt t (runs_of (snd r)) = 0 /\ wst (sw (fst r)) t = TLost /\
+   (wcl (sw (fst r)) t = wcl (sw sy0) t \/ wcl (sw (fst r)) t = (wcl (sw sy0) t + 1)%Z) /\
+   forall e, awaiting sy0 t e -> eres (get_ev (fst r) e) = Some true).
+Proof.
+  intros R Hh Lu Hd Hc Hl r Q. subst r.
+  destruct (exec_lost_cons sy0 t ls) as [E1 E2]. rewrite E1 in *. rewrite E2.
+  pose proof (PH_exec g Hwf st0 rootss t _ _ ls _ 0 (PH_init sy0 t R Lu Hd) Hl) as P.
+  set (sy2 := fst (execv (fst (stepv sy0 (LSet t TLost))) ls)) in *.
+  set (n := cnt t (runs_of (snd (execv (fst (stepv sy0 (LSet t TLost))) ls)))) in *.
+  simpl in P. destruct P as [R2 Ac B _].
+  unfold tv in Ac. remember (wst (sw sy2) t, wcl (sw sy2) t, wlu (sw sy2) t) as v eqn:Ev.
+  assert (Fail : wst (sw sy2) t = TLost -> forall e, awaiting sy0 t e -> eres (get_ev sy2 e) = Some true).
+  { intros X e He. destruct (B e He) as [T [Sd L]].
+    apply (tracked_quiescent sy2 t e R2 Q L Sd); [rewrite X; intros [Z|Z]; discriminate | exact T]. }
+  destruct Ac as [|Lt|Ge|s Hs Lt]; try lia; injection Ev as X1 X2 X3.
+  - right. split; [reflexivity|]. split; [congruence|]. split; [left; congruence | apply Fail; congruence].
+  - right. split; [reflexivity|]. split; [congruence|]. split; [right; congruence | apply Fail; congruence].
+  - left. split; [reflexivity|]. split; [rewrite <- X1; exact Hs|]. split; congruence.
+Qed.
+
+End Final.
